@@ -45,6 +45,7 @@ AXES = [
     ("mnemonics_header", [False, True]),
     ("data_section_header", ["~ASCII", "~A", "~A Log data"]),
     ("dlm", [None, "COMMA", "TAB"]),
+    ("names", ["C", "numeric"]),
 ]
 
 
@@ -111,6 +112,13 @@ def matrix(nc, nr):
     return m
 
 
+def mnemonics(nc, kind):
+    """'numeric': every mnemonic after the first is an integer equal to ANOTHER curve's position."""
+    if kind == "numeric" and nc >= 3:
+        return ["DEPT"] + [str(((j) % (nc - 1)) + 1) for j in range(1, nc)]
+    return ["C%d" % j for j in range(nc)]
+
+
 def quantum(fmt, x):
     s = fmt % x
     d = Decimal(s)
@@ -123,8 +131,9 @@ def check_point(pt):
     cfg.pop("_dev", None)
     m = matrix(nc, nr)
     las = lasio.LASFile()
+    names = mnemonics(nc, cfg["names"])
     for j in range(nc):
-        las.append_curve("C%d" % j, m[:, j].copy(), unit="U")
+        las.append_curve(names[j], m[:, j].copy(), unit="U")
     kw = {k: cfg[k] for k in ("version", "wrap", "fmt", "len_numeric_field", "spacer", "lhs_spacer", "data_width",
                               "mnemonics_header", "data_section_header")}
     cf = cfg["column_fmt"]
@@ -147,8 +156,8 @@ def check_point(pt):
         return {"clause": clause, "sig": "+".join(feats), "witness": {"point": pt, "decoded": ptd, "text": text},
                 "expected": expected, "observed": observed,
                 "size": nc * 10 + nr + 1000 * sum(cfg[n] != v[0] for n, v in AXES),
-                "repro": "import lasio,numpy as np,io; las=lasio.LASFile(); m=np.array(%r)\nfor j in range(%d): las.append_curve('C%%d'%%j, m[:,j])\ns=io.StringIO(); las.write(s, **%r); print(lasio.read(s.getvalue(), engine=%r).data)"
-                         % (m.tolist(), nc, kw, eng)}
+                "repro": "import lasio,numpy as np,io; las=lasio.LASFile(); m=np.array(%r)\nfor j in range(%d): las.append_curve(%r[j], m[:,j])\ns=io.StringIO(); las.write(s, **%r); print(lasio.read(s.getvalue(), engine=%r).data)"
+                         % (m.tolist(), nc, mnemonics(nc, cfg["names"]), kw, eng)}
 
     try:
         s = io.StringIO()
@@ -165,8 +174,8 @@ def check_point(pt):
     vio = []
     if len(back.curves) != nc:
         vio.append(V("curve-count", nc, len(back.curves), text))
-    elif back.keys() != ["C%d" % j for j in range(nc)]:
-        vio.append(V("mnemonics", ["C%d" % j for j in range(nc)], back.keys(), text))
+    elif back.keys() != names:
+        vio.append(V("mnemonics", names, back.keys(), text))
     else:
         lens = {len(c.data) for c in back.curves}
         if lens != {nr}:
